@@ -180,12 +180,12 @@ fn part_e(maxn: usize) -> Acc {
 
 pub fn run(ctx: &Ctx) -> i32 {
     let th = ctx.tier.thorough();
-    let maxlen = if th { 5 } else { 4 };
+    let maxlen = if th { 6 } else { 5 };
     let mut acc = part_a(ctx, maxlen);
     let depth = if th { 4 } else { 3 };
     let (st, accb) = part_b(depth, 3);
     acc = acc.merge(accb);
-    let maxn = if th { 4 } else { 3 };
+    let maxn = if th { 5 } else { 4 };
     acc = acc.merge(part_e(maxn));
     let evals = acc.get("assemblies") * 3 + acc.get("law_checks") + acc.get("collection_instances");
     let cov = json!({"states": st.states, "transitions": st.transitions, "traces_validated_against_impl": st.sequences + acc.get("assemblies") * 3,
